@@ -34,6 +34,8 @@ DecText(neg, limbs) ==
 \* ---------------------------------------------------------------- predicates
 Storage(e) ==      \* C09: up to 16 bytes inline and allocation free, beyond one exact allocation
   IF Len(e.text) <= 16 THEN ~e.heap /\ e.dA = 0 ELSE e.heap /\ e.dA = 1 /\ e.cap = Len(e.text)
+\* numbers are written into a buffer reserved for their digit count: C09 only speaks about the short ones
+NumStorage(e) == IF Len(e.text) <= 16 THEN ~e.heap /\ e.dA = 0 ELSE e.heap /\ e.dA = 1 /\ e.cap >= Len(e.text)
 FloatAlphabet == {48, 49, 50, 51, 52, 53, 54, 55, 56, 57, 46, 45, 101, 69}
 Str(s) == [i \in 1..Len(s) |-> CHOOSE c \in 0..127 : TRUE]   \* (unused)
 NaNText  == <<78, 97, 78>>
@@ -58,14 +60,14 @@ DispOK(e) ==
 Bad(e) ==
   CASE e.k = "int"   -> {n \in {"IntText", "IntStorage", "IntStd"} :
                            CASE n = "IntText" -> e.text # DecText(e.neg, e.limbs)
-                             [] n = "IntStorage" -> ~Storage(e)
+                             [] n = "IntStorage" -> ~NumStorage(e)
                              [] OTHER -> e.std # DecText(e.neg, e.limbs)}
     [] e.k = "bool"  -> {n \in {"BoolText", "BoolStorage"} :
                            IF n = "BoolText" THEN e.text # (IF e.v THEN <<116, 114, 117, 101>> ELSE <<102, 97, 108, 115, 101>>) ELSE ~Storage(e)}
     [] e.k = "char"  -> {n \in {"CharText", "CharStorage"} : IF n = "CharText" THEN e.text # Enc(e.cp) ELSE ~Storage(e)}
     [] e.k = "str"   -> {n \in {"StrText", "StrStorage"} : IF n = "StrText" THEN e.text # e.inp ELSE ~Storage(e)}
     [] e.k = "disp"  -> {n \in {"DispOK"} : ~DispOK(e)}
-    [] e.k = "float" -> {n \in {"FloatOK", "FloatStorage"} : IF n = "FloatOK" THEN ~FloatOK(e) ELSE ~Storage(e)}
+    [] e.k = "float" -> {n \in {"FloatOK", "FloatStorage"} : IF n = "FloatOK" THEN ~FloatOK(e) ELSE ~NumStorage(e)}
     [] e.k = "ser"   -> {n \in {"SerOK"} : ~(e.calls = <<[m |-> "str", v |-> e.text]>> /\ e.stdcalls = e.calls)}
     [] e.k = "arb"   -> {n \in {"ArbOK"} : ~(e.same /\ (e.ok => e.text = e.ref))}
     [] OTHER -> {}
